@@ -279,8 +279,8 @@ def tags_of(t):
     return out
 
 
-def check_dataset(ctx, t, d, cases, where, tail=b""):
-    fails, art = judge(t, d, tail)
+def check_dataset(ctx, t, d, cases, where, tail=b"", heavy=True):
+    fails, art = judge(t, d, tail, heavy)
     cls = classify(t, d)
     case = {"tmpl": pack(t), "data": pack(d), "tail": pack(tail)}
     size = len(json.dumps(case))
@@ -336,9 +336,10 @@ def check_malformed(ctx, t, d, rng, cases):
         dataset, values, rest = decode_with_client(dds_text, blob)
         got = X.canon(t, X.decoded_to_raw(values, t))
         impl = "(ok %s %s)" % (X.data_sexp(t, got), hexb(rest))
-    except Exception:
-        impl = "(err)"
-    cases.append(("xdr-dec %s %s" % (X.tmpl_sexp(t), hexb(blob)), impl, {"tmpl": pack(t), "cut": cut, "cls": "malformed"}))
+    except Exception as e:
+        # C05_truncated_rejected: the error is the reader's end-of-data error, nothing else
+        impl = "(err short)" if isinstance(e, EOFError) else "(err other)"
+    cases.append(("xdr-dec-e %s %s" % (X.tmpl_sexp(t), hexb(blob)), impl, {"tmpl": pack(t), "cut": cut, "cls": "malformed"}))
     cases.append(("xdr-trace %s %s" % (X.tmpl_sexp(t), hexb(blob)), " ".join(str(n) for n in read_trace(dds_text, blob)),
                   {"tmpl": pack(t), "cut": cut, "cls": "malformed"}))
     # the cut stream through a StreamReader: must raise as well (model: `(err)`), for two chunkings
@@ -360,6 +361,29 @@ def check_malformed(ctx, t, d, rng, cases):
         cases.append(("xdr-dec-sr %s (%s)" % (X.tmpl_sexp(t), " ".join(hexb(c) for c in chunks)), impl2,
                       {"tmpl": pack(t), "cut": cut, "cls": "malformed"}))
     ctx.tags["malformed:" + impl[:4]] += 1
+
+
+def check_corrupted(ctx, t, d, rng, cases):
+    """one byte of a reference stream overwritten: the real decoder and the model must agree on value / rest /
+    class of error (end of data vs anything else).  Streams on which the decoder meets a negative length word
+    are skipped (what `read` does with a negative count is outside the model)."""
+    ref = X.ref_enc(t, d)
+    if not ref:
+        return
+    i = rng.randrange(len(ref))
+    blob = ref[:i] + bytes([rng.choice([0, 1, 2, 0x5a, 0x7f, 0x80, 0xa5, 0xff])]) + ref[i + 1:]
+    dds_text = X.ref_dds(t)
+    if any(n < 0 for n in read_trace(dds_text, blob)):
+        ctx.tags["corrupted:skipped-negative-length"] += 1
+        return
+    try:
+        dataset, values, rest = decode_with_client(dds_text, blob)
+        got = X.canon(t, X.decoded_to_raw(values, t))
+        impl = "(ok %s %s)" % (X.data_sexp(t, got), hexb(rest))
+    except Exception as e:
+        impl = "(err short)" if isinstance(e, EOFError) else "(err other)"
+    cases.append(("xdr-dec-e %s %s" % (X.tmpl_sexp(t), hexb(blob)), impl, {"tmpl": pack(t), "at": i, "cls": "malformed", "corrupted": True}))
+    ctx.tags["corrupted:" + impl[:10].strip()] += 1
 
 
 def check_projection(ctx, t, d, rng, cases):
@@ -447,11 +471,13 @@ def explore(ctx, tier, search=False):
         t = X.gen_dataset(rng)
         d = X.gen_data(rng, t)
         tail = b"" if rng.random() < 0.6 else bytes(rng.getrandbits(8) for _ in range(rng.randint(1, 9)))
-        check_dataset(ctx, t, d, cases, "random", tail)
+        check_dataset(ctx, t, d, cases, "random", tail, heavy=(i % 3 == 0))
         if i % 3 == 0:
             check_projection(ctx, t, d, rng, cases)
         if i % 4 == 0:
             check_malformed(ctx, t, d, rng, cases)
+        if i % 4 == 1:
+            check_corrupted(ctx, t, d, rng, cases)
         if len(cases) > 4000:
             flush(ctx, cases)
             cases = []
@@ -459,6 +485,13 @@ def explore(ctx, tier, search=False):
 
 
 def flush(ctx, cases):
+    # corrupted streams on which the model meets a negative length word are outside the model: dropped
+    cor = [c for c in cases if c[2].get("corrupted")]
+    if cor:
+        outs = common.run_driver([c[0] for c in cor])
+        drop = {id(c) for c, o in zip(cor, outs) if o == "(err neglen)"}
+        ctx.tags["corrupted:skipped-negative-length(model)"] += len(drop)
+        cases = [c for c in cases if id(c) not in drop]
     ctx.correspond("encImpl/decImpl/calcSize/splitBody vs responses.dods / handlers.dap", cases,
                    known_class=lambda m: m.get("cls") if m.get("cls") not in (None, "malformed") else None)
 
